@@ -215,7 +215,14 @@ void run_export_case(const json& c, const std::string& workdir, std::vector<json
         else if (o == "dblock") logged(log, i, "dblock", [&](json& e) {
             index_t bi = op.at("bp").get<index_t>();
             BlockParameters bp = j2bp(bps_json.at(bi));
-            CdnsBlock b(bp, bi);
+            // the configured, still empty block reaches the application's variable in one of the ways C++ offers
+            std::string how = op.value("how", std::string("direct"));
+            CdnsBlock b0(bp, bi);
+            CdnsBlock b1 = how == "movector" ? CdnsBlock(std::move(b0)) : how == "copyctor" ? CdnsBlock(b0) : CdnsBlock();
+            CdnsBlock b2;
+            if (how == "moveassign") b2 = CdnsBlock(bp, bi);
+            else if (how == "copyassign") b2 = b0;
+            CdnsBlock& b = (how == "movector" || how == "copyctor") ? b1 : (how == "moveassign" || how == "copyassign") ? b2 : b0;
             fill_direct_block(b, op.at("items"), e);
             e["ret"] = x->write_block(b);
         });
@@ -224,7 +231,22 @@ void run_export_case(const json& c, const std::string& workdir, std::vector<json
             bool exp = op.at("export").get<bool>();
             logged(log, i, "rotate_bad", [&](json& e) {
                 e["closes"] = cur.id;
+                std::string how = op.value("how", std::string("nodir"));
                 if (cur.kind == "fd") e["ret"] = x->rotate_output(-1, exp);
+                else if (how == "longname") {
+                    // the final name is acceptable to the file system, '<name><suffix>.part' is 5 bytes too long for it
+                    std::string sfx = cur.comp == "gzip" ? ".gz" : cur.comp == "xz" ? ".xz" : "";
+                    std::string leaf = cid + "_" + op.at("id").get<std::string>() + "_";
+                    leaf += std::string(253 - sfx.size() - leaf.size(), 'L');
+                    e["ret"] = x->rotate_output(workdir + "/" + leaf, exp);
+                }
+                else if (how == "partdir") {
+                    // something else (a directory) already sits at '<name><suffix>.part'
+                    std::string sfx = cur.comp == "gzip" ? ".gz" : cur.comp == "xz" ? ".xz" : "";
+                    std::string p = workdir + "/" + cid + "_" + op.at("id").get<std::string>();
+                    ::mkdir((p + sfx + ".part").c_str(), 0755);
+                    e["ret"] = x->rotate_output(p, exp);
+                }
                 else e["ret"] = x->rotate_output(workdir + "/no_such_directory/" + cid + "_x", exp);
             });
             log.back()["closed"] = snapshot(cur);
